@@ -785,12 +785,7 @@ def rule_unbound(ctx: Ctx) -> RuleReport:
 
 # Patterns whose loop is exponentially ambiguous but whose matcher provably never reaches the ambiguous paths first. One named
 # constant each, keyed by the exact pattern text (any edit of the pattern re-opens the question).
-REGEX_EXEMPT = {
-    ("sharepoint2text/parsing/extractors/ms_legacy/rtf_extractor.py", r"\{\\pict([^}]*(?:\{[^}]*\}[^}]*)*)\}"):
-        "_RE_PICT: '{{a}' can be read as '{' + '{a}' or as one group, but the greedy prefix [^}]* stops at the first '}' and the final \\} "
-        "accepts there before any loop iteration is tried; with no '}' in the text no iteration can complete (B3 needs '}'), each start "
-        "position fails in linear time: worst case quadratic, measured 0.00 s for 95 characters of the pumped family",
-}
+REGEX_EXEMPT: dict = {}  # (module, exact pattern text) -> reason; empty: the one exempted pattern (RTF _RE_PICT) was replaced by a linear scanner
 _RE_FUNCS = {"compile", "sub", "subn", "search", "match", "findall", "finditer", "split", "fullmatch"}
 
 
